@@ -7,6 +7,7 @@ access, gate states, blockers, every participant's position, and the arrival cou
 M4: free-running episodes with random yields, oracle only."""
 import json
 from .. import core
+from . import _c11_life
 
 PREF = 1024
 
@@ -234,6 +235,8 @@ def run(ctx):
         else:
             ctx.violation("broken", what, {"theorem_or_correspondence": "impl != Barrier.Model (micro-step replay)" if mismatches else pr["file"],
                                            "first_mismatch": mismatches[0] if mismatches else None, "coq_log": pr["log"][-1500:]}, no_input=True)
+    # extension S: create / resize / destroy / global wrappers interleaved with enter (Barrier/Lifecycle.v, Properties_C11_life.v)
+    _c11_life.run_life(ctx, quick)
 
 
 def replay(ctx, path):
@@ -245,6 +248,8 @@ def replay(ctx, path):
     cfg = case.get("config", [1, 1]) if isinstance(case, dict) else [1, 1]
     if not line:
         return run(ctx)
+    if line.startswith("L"):
+        return _c11_life.replay_life(ctx, case)
     exe = ctx.link("c11_barrier", ["c11_barrier.c"], exclude=["barrier/feb.c"])
     res = run_impl(exe, [line], core.qenv(cfg[0], cfg[1], stack=65536), 600, ctx.notes, watchdog=60)
     print("\n".join(res[0][-12:]))
